@@ -109,8 +109,8 @@ def unE (fn : String) (k : Kind) (typ : Src) (classic : Bool) (aliases : List St
     (impl? classic ++ [("operand", .arg 0)] ++ aliases.map (·, .arg 0))
 
 /-- `make_x(const Expr&, const Type&)`: implicit conversions, always typed. -/
-def unET (fn : String) (k : Kind) : Row :=
-  node ("expr_factory::" ++ fn ++ "(Expr,Type)") k .generative ["Expr", "Type"] (some (.arg 1)) [("operand", .arg 0)]
+def unET (fn : String) (k : Kind) (form : String := "") (tsort : String := "Type") : Row :=
+  node ("expr_factory::" ++ fn ++ "(Expr,Type)" ++ form) k .generative ["Expr", tsort] (some (.arg 1)) [("operand", .arg 0)]
 
 /-- `make_x(const Expr&, const Expr&, Optional<Type> = {})`; `a1`/`a2` are the named aliases of first()/second(). -/
 def binOpt (fn : String) (k : Kind) (classic : Bool := true) (a1 : List String := []) (a2 : List String := []) : List Row :=
@@ -120,13 +120,13 @@ def binOpt (fn : String) (k : Kind) (classic : Bool := true) (a1 : List String :
 
 /-- `make_x_cast(const Type&, const Expr&)`: the type of a cast is its target, `expr()` is the second operand
     (interface 1069-1080). -/
-def castTE (fn : String) (k : Kind) : Row :=
-  node ("expr_factory::" ++ fn ++ "(Type,Expr)") k .generative ["Type", "Expr"] (some (.arg 0))
+def castTE (fn : String) (k : Kind) (form : String := "") (tsort : String := "Type") : Row :=
+  node ("expr_factory::" ++ fn ++ "(Type,Expr)" ++ form) k .generative [tsort, "Expr"] (some (.arg 0))
     [("implementation", .absent), ("first", .arg 0), ("second", .arg 1), ("expr", .arg 1)]
 
 /-- `make_x(const Expr&, const Type&, const Type& result)`: conversion of `expr()` to `second()`, typed by the third. -/
-def convETT (fn : String) (k : Kind) (classic : Bool) (a2 : String) : Row :=
-  node ("expr_factory::" ++ fn ++ "(Expr,Type,Type)") k .generative ["Expr", "Type", "Type"] (some (.arg 2))
+def convETT (fn : String) (k : Kind) (classic : Bool) (a2 : String) (form : String := "") (tsort : String := "Type") : Row :=
+  node ("expr_factory::" ++ fn ++ "(Expr,Type,Type)" ++ form) k .generative ["Expr", "Type", tsort] (some (.arg 2))
     (impl? classic ++ [("first", .arg 0), ("second", .arg 1), ("expr", .arg 0), (a2, .arg 1)])
 
 /-- A unary name / type constructor `get_x(operand)`: unified, the operand under `operand` and its alias. -/
@@ -139,6 +139,9 @@ def unaryType (key : String) (k : Kind) (alias : String) : Row :=
 /-- A String node made from characters. -/
 def stringPart : List A := [("kind", .val "$String"), ("characters", .arg 0), ("size", .len 0)]
 def stringPartAt (i : Nat) : List A := [("kind", .val "$String"), ("characters", .arg i), ("size", .len i)]
+
+/-- form of a call whose type operand carries top-level cv-qualifiers -/
+def qt : String := "#qualified-type"
 
 /-! ### name_factory, symbols, nullary and unary expressions -/
 
@@ -155,6 +158,8 @@ def namesAndSymbols : List Row := [
   unaryName "name_factory::get_ctor_name(Type)" .Ctor_name "Type" "object_type",
   unaryName "name_factory::get_dtor_name(Type)" .Dtor_name "Type" "object_type",
   unaryName "name_factory::get_guide_name(Template)" .Guide_name "Template" "mapping_decl",
+  -- the deduction-guide name of the template GIVEN, also when that is a redeclaration (not of its master)
+  unaryName "name_factory::get_guide_name(Template)#redeclaration" .Guide_name "Redeclared_template" "mapping_decl",
   obj "name_factory::get_logogram(String)" .Logogram .unified ["String"]
     [("operand", .arg 0), ("what", .arg 0), ("what.characters", .via 0 .h_characters)],
   obj "expr_factory::get_linkage(word_view)" .Linkage .unified ["word_view"]
@@ -177,6 +182,13 @@ def namesAndSymbols : List Row := [
   node "expr_factory::make_literal(Type,word_view)" .Literal .unified ["Type", "word_view"] (some (.arg 0))
     ([("implementation", .absent), ("first", .arg 0), ("second", .own)] ++ pre "second" (stringPartAt 1) ++ [("string", .same "second")])]
 
+/-- Use of a declaration: its name, its type, and THE DECLARATION GIVEN is the resolution (interface 960-971) -- whatever the
+    form of that declaration: a first declaration, a redeclaration (the id-expression does not resolve to the master), a
+    function, a template, a parameter, an enumerator, a base-class subobject. -/
+def idOfDecl (form sort : String) : Row :=
+  node ("expr_factory::make_id_expr(Decl)" ++ form) .Id_expr .generative [sort] (some (.via 0 .h_type))
+    [("operand", .via 0 .h_name), ("resolution", .arg 0), ("name", .via 0 .h_name)]
+
 def unaries : List Row :=
   unOpt "make_address" .Address true ++ unOpt "make_complement" .Complement true ++ unOpt "make_deref" .Deref true ++
   unOpt "make_alignof" .Alignof false ++ unOpt "make_sizeof" .Sizeof false ++ unOpt "make_args_cardinality" .Args_cardinality false ++
@@ -189,6 +201,9 @@ def unaries : List Row :=
    -- a requires-clause is a bool (interface 947-951)
    unE "make_restriction" .Restriction (.const .k_bool) false,
    unET "make_demotion" .Demotion, unET "make_materialization" .Materialization, unET "make_promotion" .Promotion, unET "make_read" .Read,
+   -- the type given is reported EXACTLY, also when it carries top-level cv-qualifiers: the factory does not adjust it
+   unET "make_demotion" .Demotion qt "Qualified_type", unET "make_materialization" .Materialization qt "Qualified_type",
+   unET "make_promotion" .Promotion qt "Qualified_type", unET "make_read" .Read qt "Qualified_type",
    -- an expression list is typed by the product of its elements' types: empty at creation (interface 924-934)
    node "expr_factory::make_expr_list()" .Expr_list .generative [] (some .own)
      (pre "type" (emptyProduct "type") ++ [("operand.size", .val "#0"), ("elements.size", .val "#0"), ("size", .val "#0")]),
@@ -196,9 +211,16 @@ def unaries : List Row :=
      [("operand", .arg 0), ("resolution", .absent), ("name", .arg 0)],
    node "expr_factory::make_id_expr(Name,Optional<Type>)/1" .Id_expr .generative ["Name"] (some .unset)
      [("operand", .arg 0), ("resolution", .absent), ("name", .arg 0)],
-   -- use of a declaration: its name, its type, and it is the resolution (interface 960-971)
-   node "expr_factory::make_id_expr(Decl)" .Id_expr .generative ["Decl"] (some (.via 0 .h_type))
-     [("operand", .via 0 .h_name), ("resolution", .arg 0), ("name", .via 0 .h_name)],
+   idOfDecl "" "Decl", idOfDecl "#redeclaration" "Redeclaration", idOfDecl "#function" "Fundecl", idOfDecl "#template" "Template",
+   idOfDecl "#parameter" "Parameter", idOfDecl "#enumerator" "Enumerator", idOfDecl "#base" "Base_type",
+   -- a declaration (operand 4: name operand 2, type operand 3) constructed in the storage where an earlier declaration (name
+   -- operand 0, type operand 1) lived and died, the Lexicon living on: its id-expression reports the declaration given --
+   -- the newcomer's name and type -- not whatever was once said about that address
+   node "expr_factory::make_id_expr(Decl)#recycled-storage" .Id_expr .generative ["Name", "Type", "Name", "Type", "Parameter"] (some (.arg 3))
+     [("operand", .arg 2), ("resolution", .arg 4), ("name", .arg 2)],
+   -- the same when the dead declaration was owned by a translation unit destroyed before the next unit was built
+   node "expr_factory::make_id_expr(Decl)#recycled-unit" .Id_expr .generative ["Name", "Type", "Name", "Type", "Var"] (some (.arg 3))
+     [("operand", .arg 2), ("resolution", .arg 4), ("name", .arg 2)],
    node "expr_factory::make_label(Identifier,Optional<Type>)" .Label .generative ["Identifier", "Type"] (some (.arg 1))
      [("operand", .arg 0), ("name", .arg 0)],
    node "expr_factory::make_label(Identifier,Optional<Type>)/1" .Label .generative ["Identifier"] (some .unset)
@@ -230,8 +252,13 @@ def binaries : List Row :=
   binOpt "make_scope_ref" .Scope_ref true ["scope"] ["member"] ++ binOpt "make_rshift" .Rshift ++ binOpt "make_rshift_assign" .Rshift_assign ++
   [castTE "make_cast" .Cast, castTE "make_const_cast" .Const_cast, castTE "make_dynamic_cast" .Dynamic_cast,
    castTE "make_reinterpret_cast" .Reinterpret_cast, castTE "make_static_cast" .Static_cast,
+   castTE "make_cast" .Cast qt "Qualified_type", castTE "make_const_cast" .Const_cast qt "Qualified_type",
+   castTE "make_dynamic_cast" .Dynamic_cast qt "Qualified_type", castTE "make_reinterpret_cast" .Reinterpret_cast qt "Qualified_type",
+   castTE "make_static_cast" .Static_cast qt "Qualified_type",
    convETT "make_coercion" .Coercion true "target", convETT "make_narrow" .Narrow false "derived",
    convETT "make_pretend" .Pretend false "target", convETT "make_widen" .Widen false "base",
+   convETT "make_coercion" .Coercion true "target" qt "Qualified_type", convETT "make_narrow" .Narrow false "derived" qt "Qualified_type",
+   convETT "make_pretend" .Pretend false "target" qt "Qualified_type", convETT "make_widen" .Widen false "base" qt "Qualified_type",
    node "expr_factory::make_call(Expr,Expr_list,Optional<Type>)" .Call .generative ["Expr", "Expr_list", "Type"] (some (.arg 2))
      [("implementation", .absent), ("first", .arg 0), ("second", .arg 1), ("function", .arg 0), ("args", .arg 1)],
    node "expr_factory::make_call(Expr,Expr_list,Optional<Type>)/2" .Call .generative ["Expr", "Expr_list"] (some .unset)
@@ -290,6 +317,13 @@ def binaries : List Row :=
 def udtP (extra : List A) : List A :=
   [("name", .unset)] ++ cxx ++ [("region", .own)] ++ pre "region" (regionDeep (.arg 0) .self) ++
   [("scope", .same "region.bindings"), ("members.size", .val "#0")] ++ extra
+
+/-- A position handed to the constructor of a token is COPIED into it (attribute 26-41: a lexeme has a spelling and a locus):
+    `s l v k` are the operand positions of spelling, position, value and category; `me` is the token itself (it is its own lexeme). -/
+def tokenP (s l v k : Nat) (me : Src) : List A :=
+  [("lexeme", me), ("spelling", .arg s), ("locus", .arg l), ("value", .arg v), ("token_category", .arg k)]
+
+def tokenSorts : List String := ["String", "Source_location", "TokenValue", "TokenCategory"]
 
 def functionRow (key : String) (sorts : List String) (throws : Src) (xfer : Option Nat) : Row :=
   node key .Function .unified sorts (some (.const .k_typename))
@@ -367,7 +401,12 @@ def types : List Row := [
   node "type_factory::make_class(Region)" .Class .generative ["Region"] (some (.const .k_class)) (udtP [("bases.size", .val "#0")]),
   node "type_factory::make_union(Region)" .Union .generative ["Region"] (some (.const .k_union)) (udtP []),
   node "type_factory::make_namespace(Region)" .Namespace .generative ["Region"] (some (.const .k_namespace)) (udtP []),
-  node "type_factory::make_closure(Region)" .Closure .generative ["Region"] (some (.const .k_class)) (udtP [])]
+  node "type_factory::make_closure(Region)" .Closure .generative ["Region"] (some (.const .k_class)) (udtP []),
+  -- the closure type reached as the type of a lambda, and as the type of a variable: the same class type
+  node "expr_factory::make_lambda(Region,Mapping_level)#closure-type" .Closure .generative ["Region", "Mapping_level", "Closure"]
+    (some (.const .k_class)) (udtP []),
+  node "Region::declare_var(Name,Type)#closure-typed" .Closure .generative ["Region", "Closure", "Region", "Name"]
+    (some (.const .k_class)) (udtP [])]
 
 /-! ### directives, statements, Lexicon conveniences -/
 
@@ -402,6 +441,14 @@ def directivesAndStatements : List Row := [
     [("phases", .arg 1), ("expression", .arg 0)],
   node "dir_factory::make_pragma()" .Pragma .generative [] (some .unset)
     [("operand.size", .val "#0"), ("phases", .val "#-1"), ("incantation.size", .val "#0")],
+  -- tokens as a client builds them (directly, in a farm, inside a pragma): spelling, position, value and category as given --
+  -- the position BY VALUE: the caller's variable moves on (second token of the pragma: operand 5 is operand 1 advanced)
+  obj "Token::Token(String,Source_location,TokenValue,TokenCategory)" .Token .generative tokenSorts (tokenP 0 1 2 3 .self),
+  obj "stable_farm<Token>::make(String,Source_location,TokenValue,TokenCategory)" .Token .generative tokenSorts (tokenP 0 1 2 3 .self),
+  node "dir_factory::make_pragma()#tokens" .Pragma .generative (tokenSorts ++ tokenSorts) (some .unset)
+    ([("operand.size", .val "#2"), ("operand.0", .own)] ++ pre "operand.0" ([("kind", .val "$Token")] ++ tokenP 0 1 2 3 (.same "operand.0")) ++
+     [("operand.1", .own)] ++ pre "operand.1" ([("kind", .val "$Token")] ++ tokenP 4 5 6 7 (.same "operand.1")) ++
+     [("phases", .val "#-1"), ("incantation.size", .val "#2"), ("incantation.0", .same "operand.0"), ("incantation.1", .same "operand.1")]),
   -- break and continue have type void (interface 1692-1704)
   node "stmt_factory::make_break()" .Break .generative [] (some (.const .k_void)) (stmtP ++ [("from", .unset)]),
   node "stmt_factory::make_continue()" .Continue .generative [] (some (.const .k_void)) (stmtP ++ [("iteration", .unset)]),
@@ -543,6 +590,16 @@ def redeclMakers : List Row :=
     node (key 7 "(Name,Forall)") .Template .generative ["Scope", "Name", "Forall", "Template"] (some (.arg 2))
       (redeclP (.arg 1) .unset ++ templateP .unset)]
 
+/-- An expression list holding exactly operand `m`; `ts` is where the single component of its type comes from: the type of the
+    member AS IT IS WHEN THE LIST'S TYPE IS READ (interface 924-934) -- also when the member was typed, re-typed or linked after it
+    was added and after the list's type had been read. -/
+def listOfOne (key : String) (sorts : List String) (m : Nat) (ts : Src) : Row :=
+  node key .Expr_list .generative sorts (some .own)
+    (pre "type" ([("kind", .val "$Product"), ("type", .const .k_typename), ("operand.size", .val "#1"), ("operand.0", ts)] ++
+       typeIdName (.same "type") ++ cxx ++
+       [("elements.size", .val "#1"), ("elements.0", ts), ("size", .val "#1"), ("index.size", .val "#1"), ("index.0", ts)]) ++
+     [("operand.size", .val "#1"), ("operand.0", .arg m), ("elements.size", .val "#1"), ("elements.0", .arg m), ("size", .val "#1")])
+
 def containers : List Row :=
   [node "Region::make_subregion()" .Region .generative ["Region"] none
      ([("span", .val "#0:0:0-0:0:0"), ("enclosing", .arg 0), ("owner", .absent), ("body.size", .val "#0"), ("bindings", .own)] ++
@@ -587,11 +644,13 @@ def containers : List Row :=
           ("bindings.size", .val "#0"), ("global", .val "#0")]) ++
        [("body.size", .val "#1"), ("body.0", .arg 2), ("handlers.size", .val "#0"), ("try_block", .val "#0")]),
     -- the type of an expression list is the product of its elements' types, also after an addition (interface 924-934)
-    node "Expr_list::push_back(Expr)" .Expr_list .generative ["Expr_list", "Expr"] (some .own)
-      (pre "type" ([("kind", .val "$Product"), ("type", .const .k_typename), ("operand.size", .val "#1"), ("operand.0", .via 1 .h_type)] ++
-         typeIdName (.same "type") ++ cxx ++
-         [("elements.size", .val "#1"), ("elements.0", .via 1 .h_type), ("size", .val "#1"), ("index.size", .val "#1"), ("index.0", .via 1 .h_type)]) ++
-       [("operand.size", .val "#1"), ("operand.0", .arg 1), ("elements.size", .val "#1"), ("elements.0", .arg 1), ("size", .val "#1")]),
+    listOfOne "Expr_list::push_back(Expr)" ["Expr_list", "Expr"] 1 (.via 1 .h_type),
+    -- the member (an id-expression) had no type when added and when the list's type was first read; typed afterwards (last operand)
+    listOfOne "Expr_list::push_back(Expr)#late-typed" ["Expr_list", "Name", "Id_expr", "Type"] 2 (.arg 3),
+    -- the member had a provisional type (operand 2) when added and read; re-typed afterwards (last operand)
+    listOfOne "Expr_list::push_back(Expr)#retyped" ["Expr_list", "Name", "Type", "Id_expr", "Type"] 3 (.arg 4),
+    -- the member is a loop whose body (hence type) is linked afterwards
+    listOfOne "Expr_list::push_back(Expr)#late-linked" ["Expr_list", "While", "Expr", "Expr"] 1 (.via 1 .h_type),
     -- a module unit has a global namespace of its own (named by the empty identifier) and belongs to its module
     obj "Module::make_unit()" .Module_unit .generative ["Module"]
       ([("global_namespace", .own)] ++ pre "global_namespace" (
@@ -622,6 +681,11 @@ def forms : List Row := [
   -- a captured enclosing local is named like its declaration (interface 843-846)
   obj "capture_spec_factory::enclosing_local_capture(Decl,Binding_mode)" .Capture_specification_Enclosing_local .generative ["Var", "Binding_mode"]
     [("name", .via 0 .h_name), ("mode", .arg 1), ("declaration", .arg 0)],
+  -- ... and it captures the declaration GIVEN, also a redeclaration or a parameter
+  obj "capture_spec_factory::enclosing_local_capture(Decl,Binding_mode)#redeclaration" .Capture_specification_Enclosing_local .generative
+    ["Redeclaration", "Binding_mode"] [("name", .via 0 .h_name), ("mode", .arg 1), ("declaration", .arg 0)],
+  obj "capture_spec_factory::enclosing_local_capture(Decl,Binding_mode)#parameter" .Capture_specification_Enclosing_local .generative
+    ["Parameter", "Binding_mode"] [("name", .via 0 .h_name), ("mode", .arg 1), ("declaration", .arg 0)],
   obj "capture_spec_factory::binding_capture(Identifier,Expr,Binding_mode)" .Capture_specification_Binding .generative ["Identifier", "Expr", "Binding_mode"]
     [("name", .arg 0), ("mode", .arg 2), ("initializer", .arg 1)],
   obj "capture_spec_factory::expansion_capture(Capture_specification::Named)" .Capture_specification_Expansion .generative
